@@ -152,3 +152,10 @@ def run(ck):
     ck.verdict(ok, "4", "T14-bit-provenance", sn, "sets/clears-exactly-NONBLOCK", "set_nonblocking(true) ORs NONBLOCK into the current flags, set_nonblocking(false) ANDs its complement, and writes that value back", "set_nonblocking does not set/clear exactly the NONBLOCK flag on the fd's current flags", site=sn.where())
     cont = [cs for cs in sn.calls() if cs.name == "contains"]
     ck.verdict(bool(cont) and all(T.resolves_to_call(sn, c.args[0], [getfl[0].bb]) and nb(c.args[1]) for c in cont) if getfl else False, "4", "T6-provenance", sn, "returns-previous-NONBLOCK", "the function reports whether NONBLOCK was set before", "set_nonblocking does not report the previous mode", site=sn.where())
+    # the blocking mode is restored on the failure path of adapt_io as well (shared with C15.2), and a dropped /
+    # unwrapped adapter leaves the poller (shared with C16.1): otherwise the fd cannot be adapted again
+    from props import C15, C16, common
+
+    common.import_results(ck, C15, "2", "Async::new", "4")
+    common.import_results(ck, C16, "1", "Async", "4")
+    common.import_results(ck, C16, "1", "IoLoopInner", "4")
